@@ -36,7 +36,7 @@ pub fn make_archive_with(ctx: &mut Ctx, max_len: usize, big: bool, force_writer:
         spec.metadata = scen::cli_safe_metadata(&spec.metadata);
     }
     tweak(&mut spec);
-    let max_len = if spec.comp.expensive() { max_len.min(spec.cfg.expected_avg().saturating_mul(24).max(64)) } else { max_len };
+    let max_len = gen::len_cap(spec.comp, &spec.cfg, max_len);
     // big chunks (>= 32 KiB on average): let the source hold several of them when compression
     // is cheap, or multi-chunk behaviour of large chunks is only seen in the rare "big" runs
     let cheap = matches!(spec.comp, gen::Comp::None | gen::Comp::Brotli(1..=3) | gen::Comp::Zstd(1..=3));
@@ -133,7 +133,7 @@ fn source_read_fault(ctx: &mut Ctx) {
         spec.buffers = 1;
     }
     let max_len = if gen::chance(1, 4) { 3 << 20 } else { 128 * 1024 };
-    let max_len = if spec.comp.expensive() { max_len.min(spec.cfg.expected_avg().saturating_mul(24).max(64)) } else { max_len };
+    let max_len = gen::len_cap(spec.comp, &spec.cfg, max_len);
     let (sspec, data) = gen::gen_source(&spec.cfg, max_len);
     if data.is_empty() {
         return;
